@@ -16,7 +16,8 @@ JOBS = [
       fuc=["calc_bits"], timeout=120, native=True, note="complete: the loop is bounded by the width of long (65 unwindings, unwinding assertion on)"),
   Job("c07.init", TU, "h_init", replace=["calc_bits/calc_bits_contract"], fuc=["myth_join_counter_init_body"], timeout=120, native=True),
   Job("c07.dec", TU, "h_dec", loops=L_DEC, loop_counts={"myth_join_counter_dec_body": 1},
-      replace=RG_REPL + ["myth_wake_many_from_queue/wake_many_q_contract"],
+      replace=RG_REPL + ["myth_wake_many_from_queue/wake_many_q_contract", "myth_wake_one_from_queue/wake_one_q_contract", "myth_wake_all_from_queue/wake_queued_only_contract",
+                         "myth_wake_if_any_from_queue/wake_queued_only_contract2"],
       fuc=["myth_join_counter_dec_body"], timeout=180, read_hooks=[("state", "myth_verif_rd")]),
   Job("c07.wait", TU, "h_wait", loops=L_WAIT, loop_counts={"myth_join_counter_wait_body": 1},
       replace=RG_REPL + ["myth_block_on_queue/block_on_queue_contract"],
